@@ -164,6 +164,82 @@ theorem skipTo_spec {kf : KF} (key : Nat) : ∀ (r : List DbNode) (l : DbNode), 
 
 /-! ## the run invariant -/
 
+/-- an untouched node of the old level: well formed, its separator at most its keys -/
+def OldOK (kf : KF) (l : DbNode) : Prop := NodeOK kf l.node ∧ ∀ it ∈ l.node.items, l.sep ≤ it.key
+
+theorem DbOK.oldOK {kf : KF} : ∀ {db : List DbNode}, DbOK kf db → ∀ n ∈ db, OldOK kf n := by
+  intro db
+  induction db with
+  | nil => intro _ n hn; cases hn
+  | cons l r ih =>
+    intro h n hn
+    rcases List.mem_cons.1 hn with e | e
+    · rw [e]; exact ⟨h.head.1, h.head.2.1⟩
+    · exact ih h.tail n e
+
+theorem mem_out_old_append {l : DbNode} {out : List OutNode} {ls : List Produced} {sk : List DbNode}
+    (h : OutNode.old l ∈ out ++ ls.map .new ++ sk.map .old) : OutNode.old l ∈ out ∨ l ∈ sk := by
+  rcases List.mem_append.1 h with h | h
+  · rcases List.mem_append.1 h with h | h
+    · exact Or.inl h
+    · obtain ⟨q, _, e⟩ := List.mem_map.1 h
+      cases e
+  · obtain ⟨q, hq, e⟩ := List.mem_map.1 h
+    cases e; exact Or.inr hq
+
+/-- every key of `o` is below the separator of `o'` -/
+def Before (o o' : OutNode) : Prop := ∀ e ∈ ents o.items, e.key < o'.sep
+
+theorem DbOK.pairwise {kf : KF} : ∀ {db : List DbNode}, DbOK kf db →
+    db.Pairwise (fun n n' => ∀ it ∈ n.node.items, it.key < n'.sep) := by
+  intro db
+  induction db with
+  | nil => intro _; exact List.Pairwise.nil
+  | cons l r ih =>
+    intro h
+    refine List.Pairwise.cons ?_ (ih h.tail)
+    intro n' hn' it hit
+    cases r with
+    | nil => cases hn'
+    | cons l2 r2 =>
+      have h1 := (h.1.2.2 l2.sep rfl).2 it hit
+      rcases List.mem_cons.1 hn' with e | e
+      · rw [e]; exact h1
+      · have := DbOK.sep_mono h.2 n' e
+        omega
+
+theorem pairwise_old {l : List DbNode} (h : l.Pairwise (fun n n' => ∀ it ∈ n.node.items, it.key < n'.sep)) :
+    (l.map OutNode.old).Pairwise Before := by
+  rw [List.pairwise_map]
+  refine h.imp ?_
+  intro a b hab e he
+  obtain ⟨it, hit, rfl⟩ := mem_ents he
+  exact hab it hit
+
+/-- produced nodes whose entries ascend and whose separators are their first keys are chained -/
+theorem pairwise_new {kf : KF} {cut : Option Nat} : ∀ {ls : List Produced}, Sorted (flatP ls) →
+    (∀ p ∈ ls, NodeGood kf cut p) → (ls.map OutNode.new).Pairwise Before := by
+  intro ls
+  induction ls with
+  | nil => intro _ _; exact List.Pairwise.nil
+  | cons p r ih =>
+    intro hs hg
+    have hs' : Sorted (ents p.node.items ++ flatP r) := hs
+    refine List.Pairwise.cons ?_ (ih (List.pairwise_append.1 hs').2.1 (fun q hq => hg q (by simp [hq])))
+    intro o' ho' e he
+    obtain ⟨q, hq, rfl⟩ := List.mem_map.1 ho'
+    have g := hg q (by simp [hq])
+    obtain ⟨f, rr, hfr⟩ := List.exists_cons_of_ne_nil g.ne
+    have hsep : f.key = q.sep := by
+      have := g.sep; rw [hfr] at this; simpa using this
+    have hmem : f.ent ∈ flatP r := by
+      unfold flatP
+      rw [List.mem_flatMap]
+      exact ⟨q, hq, by rw [hfr]; simp⟩
+    have := (List.pairwise_append.1 hs').2.2 e he f.ent hmem
+    show e.key < q.sep
+    rw [← hsep]; exact this
+
 /-- what every node handed to `handle_new_branch` satisfies -/
 def NewGood (kf : KF) (p : Produced) : Prop := NodeGood kf p.cutoff p
 
@@ -178,10 +254,14 @@ structure RS (kf : KF) (r : Run) (lo : Nat) : Prop where
   den_lo : ∀ e ∈ den r.st.base r.st.ops, e.key < lo
   passed : ∀ b, r.st.base = some b → ∀ it ∈ b.node.items.take b.low, it.key < lo
   news : ∀ p, OutNode.new p ∈ r.out → NewGood kf p
+  out_hi : ∀ c, r.st.cutoff = some c → ∀ e ∈ flatOut r.out, e.key < c
+  chain : r.out.Pairwise Before
+  olds : ∀ l, OutNode.old l ∈ r.out → OldOK kf l
 
 theorem RS.mono {kf : KF} {r : Run} {lo lo' : Nat} (h : RS kf r lo) (hl : lo ≤ lo') : RS kf r lo' :=
   ⟨h.inv, h.rest, h.cut, h.sortedT, h.belowT, h.hi, fun e he => by have := h.out_lo e he; omega,
-    fun e he => by have := h.den_lo e he; omega, fun b hb it hit => by have := h.passed b hb it hit; omega, h.news⟩
+    fun e he => by have := h.den_lo e he; omega, fun b hb it hit => by have := h.passed b hb it hit; omega, h.news,
+    h.out_hi, h.chain, h.olds⟩
 
 /-- the run after `reset_branch_base_fresh` found the node `l` behind the skipped ones -/
 def Run.reset (r : Run) (skipped : List DbNode) (l : DbNode) (rest' : List DbNode) : Run :=
@@ -270,6 +350,79 @@ theorem mem_out_new_append {p : Produced} {out : List OutNode} {ls : List Produc
   · obtain ⟨q, _, e⟩ := List.mem_map.1 h
     cases e
 
+/-- the produced nodes of a `digest` and untouched nodes from the front of the rest extend the chain -/
+theorem chain_extend {kf : KF} {r : Run} {lo : Nat} (hrs : RS kf r lo) {st' : St} {ls : List Produced}
+    {res : DigestResult} (o : DigestOut kf r.st st' ls res) (sk tail : List DbNode) (hsplit : r.rest = sk ++ tail) :
+    (r.out ++ ls.map OutNode.new ++ sk.map OutNode.old).Pairwise Before := by
+  have hlsub : ∀ e ∈ flatP ls, e ∈ content r.st := fun e he => by
+    rw [← o.content_eq]; exact List.mem_append_left _ he
+  have hsls : Sorted (flatP ls) := by
+    have := hrs.inv.sorted
+    rw [← o.content_eq] at this
+    exact this.append_left
+  -- the separators of the untouched nodes are at least the cutoff
+  have hskc : ∀ n ∈ sk, ∀ e, e ∈ flatOut r.out ∨ e ∈ content r.st → e.key < n.sep := by
+    intro n hn e he
+    cases hr : r.rest with
+    | nil =>
+      rw [hr] at hsplit
+      have : sk = [] := by
+        cases sk with
+        | nil => rfl
+        | cons a b => simp at hsplit
+      rw [this] at hn; cases hn
+    | cons l0 rest0 =>
+      have hcut := hrs.cut
+      rw [hr] at hcut
+      simp only [List.head?_cons, Option.map_some] at hcut
+      have hnr : n ∈ l0 :: rest0 := by rw [← hr, hsplit]; exact List.mem_append_left _ hn
+      have hdb := hrs.rest
+      rw [hr] at hdb
+      have hge : l0.sep ≤ n.sep := by
+        rcases List.mem_cons.1 hnr with h | h
+        · rw [h]; exact Nat.le_refl _
+        · exact DbOK.sep_mono hdb n h
+      rcases he with he | he
+      · have := hrs.out_hi _ hcut e he; omega
+      · have := hrs.hi _ hcut e he; omega
+  rw [List.append_assoc, List.pairwise_append]
+  refine ⟨hrs.chain, ?_, ?_⟩
+  · rw [List.pairwise_append]
+    refine ⟨pairwise_new hsls o.nodes, ?_, ?_⟩
+    · have := DbOK.pairwise hrs.rest
+      rw [hsplit] at this
+      exact pairwise_old (List.pairwise_append.1 this).1
+    · intro a ha b hb e he
+      obtain ⟨p, hp, rfl⟩ := List.mem_map.1 ha
+      obtain ⟨n, hn, rfl⟩ := List.mem_map.1 hb
+      apply hskc n hn e
+      right
+      apply hlsub
+      unfold flatP
+      rw [List.mem_flatMap]
+      exact ⟨p, hp, he⟩
+  · intro a ha b hb e he
+    have hea : e ∈ flatOut r.out := by
+      unfold flatOut
+      rw [List.mem_flatMap]
+      exact ⟨a, ha, he⟩
+    rcases List.mem_append.1 hb with hb | hb
+    · obtain ⟨q, hq, rfl⟩ := List.mem_map.1 hb
+      have g := o.nodes q hq
+      obtain ⟨f, rr, hfr⟩ := List.exists_cons_of_ne_nil g.ne
+      have hsep : f.key = q.sep := by
+        have := g.sep; rw [hfr] at this; simpa using this
+      have hmem : f.ent ∈ content r.st := by
+        apply hlsub
+        unfold flatP
+        rw [List.mem_flatMap]
+        exact ⟨q, hq, by rw [hfr]; simp⟩
+      have := (List.pairwise_append.1 hrs.sortedT).2.2 e hea f.ent (List.mem_append_left _ hmem)
+      show e.key < q.sep
+      rw [← hsep]; exact this
+    · obtain ⟨n, hn, rfl⟩ := List.mem_map.1 hb
+      exact hskc n hn e (Or.inl hea)
+
 theorem step_spec {kf : KF} (hkf : KFOK kf) (r : Run) (lo : Nat) (hrs : RS kf r lo) (c : Nat)
     (hc : r.st.cutoff = some c) (k : Nat) (hck : c ≤ k) :
     ∃ st' ls res, digest kf r.st = some (st', ls, res) ∧ DigestOut kf r.st st' ls res ∧
@@ -334,7 +487,18 @@ theorem step_spec {kf : KF} (hkf : KFOK kf) (r : Run) (lo : Nat) (hrs : RS kf r 
     · rw [h]; simp
     · rw [h]; simp
   have hsk_lt : ∀ e ∈ flat skipped, e.key < k := fun e he => by have := f5 e he; omega
-  refine ⟨⟨f7, f6.tail, rfl, ?_, ?_, ?_, ?_, ?_, ?_, ?_⟩, ?_, htotal⟩
+  have hl0l : l0.sep ≤ l.sep := by
+    have hdb := hrs.rest
+    rw [hrest] at hdb
+    cases skipped with
+    | nil =>
+      have : l0 :: rest0 = l :: rest' := by rw [← hrest]; exact f1
+      cases this; exact Nat.le_refl _
+    | cons s sk =>
+      have h2 : l0 :: rest0 = s :: (sk ++ l :: rest') := by rw [← hrest]; exact f1
+      cases h2
+      exact DbOK.sep_mono hdb l (by simp)
+  refine ⟨⟨f7, f6.tail, rfl, ?_, ?_, ?_, ?_, ?_, ?_, ?_, ?_, ?_, ?_⟩, ?_, htotal⟩
   · show Sorted (flatOut (r.out ++ ls.map .new ++ skipped.map .old) ++ (content _ ++ flat rest'))
     rw [htotal]; exact hrs.sortedT
   · show ∀ e ∈ flatOut (r.out ++ ls.map .new ++ skipped.map .old) ++ (content _ ++ flat rest'), e.key < 2 ^ 256
@@ -380,6 +544,21 @@ theorem step_spec {kf : KF} (hkf : KFOK kf) (r : Run) (lo : Nat) (hrs : RS kf r 
     rcases mem_out_new_append hp with h | h
     · exact hrs.news p h
     · exact newGood_of_nodeGood (o.nodes p h)
+  · -- everything emitted is below the new cutoff
+    intro c' hc' e he
+    simp only [resetBase] at hc'
+    have hlc := (hnodeIn.2.2 c' hc').1
+    simp only [flatOut_append, flatOut_new, flatOut_old] at he
+    rcases List.mem_append.1 he with he | he
+    · rcases List.mem_append.1 he with he | he
+      · have := hrs.out_hi c hc e he; omega
+      · have := hlt e (hlsub e he); omega
+    · have := f5 e he; omega
+  · exact chain_extend hrs o skipped (l :: rest') f1
+  · intro n hn
+    rcases mem_out_old_append hn with h | h
+    · exact hrs.olds n h
+    · exact DbOK.oldOK hrs.rest n (by rw [f1]; exact List.mem_append_left _ h)
   · show rest'.length < r.rest.length
     rw [f1]; simp; omega
 
@@ -449,7 +628,7 @@ theorem runChanges_spec {kf : KF} (hkf : KFOK kf) : ∀ (cs : List (Nat × Optio
       simp only
       rw [write1_append_below (fun e he => e2.out_lo e he), write1_append_above hrest_gt, i2]
     have hrs2 : RS kf ({ r1 with st := st2 } : Run) (k + 1) := by
-      refine ⟨i3, e2.rest, by rw [i5]; exact e2.cut, ?_, ?_, ?_, ?_, ?_, ?_, e2.news⟩
+      refine ⟨i3, e2.rest, by rw [i5]; exact e2.cut, ?_, ?_, ?_, ?_, ?_, ?_, e2.news, by rw [i5]; exact e2.out_hi, e2.chain, e2.olds⟩
       · show Sorted ({ r1 with st := st2 } : Run).total
         rw [htot]; exact write1_sorted e2.sortedT k _
       · show ∀ e ∈ ({ r1 with st := st2 } : Run).total, e.key < 2 ^ 256
@@ -478,7 +657,8 @@ theorem runChanges_spec {kf : KF} (hkf : KFOK kf) : ∀ (cs : List (Nat × Optio
 
 theorem finishLoop_spec {kf : KF} (hkf : KFOK kf) : ∀ fuel (r : Run) (lo : Nat), RS kf r lo → r.rest.length < fuel →
     ∃ r', finishLoop kf fuel r = some r' ∧ flatOut r'.out ++ flat r'.rest = r.total ∧
-      (∀ p, OutNode.new p ∈ r'.out → NewGood kf p) := by
+      (∀ p, OutNode.new p ∈ r'.out → NewGood kf p) ∧ (r'.out ++ r'.rest.map OutNode.old).Pairwise Before ∧
+      (∀ l, OutNode.old l ∈ r'.out ++ r'.rest.map OutNode.old → OldOK kf l) := by
   intro fuel
   induction fuel with
   | zero => intro r lo _ h; omega
@@ -489,7 +669,12 @@ theorem finishLoop_spec {kf : KF} (hkf : KFOK kf) : ∀ fuel (r : Run) (lo : Nat
     cases res with
     | finished =>
       simp only [ed]
-      refine ⟨_, rfl, ?_, ?_⟩
+      refine ⟨_, rfl, ?_, ?_, chain_extend hrs o r.rest [] (by simp), ?_⟩
+      rotate_right 1
+      · intro n hn
+        rcases mem_out_old_append hn with h | h
+        · exact hrs.olds n h
+        · exact DbOK.oldOK hrs.rest n h
       · simp only [flatOut_append, flatOut_new]
         unfold Run.total
         rw [← o.content_eq, o.fin rfl]
@@ -509,9 +694,9 @@ theorem finishLoop_spec {kf : KF} (hkf : KFOK kf) : ∀ fuel (r : Run) (lo : Nat
       simp only [ed]
       have hs1 : ¬ kf.seeded = 1 := by rw [hkf.seeded]; decide
       simp only [hs1, if_false]
-      obtain ⟨r', e1, e2, e3⟩ := ih _ _ h1 (Nat.lt_of_lt_of_le h2 (by omega))
+      obtain ⟨r', e1, e2, e3, e4, e5⟩ := ih _ _ h1 (Nat.lt_of_lt_of_le h2 (by omega))
       simp only [keyOf] at e1 e2 h3
-      exact ⟨r', e1, by rw [e2, h3], e3⟩
+      exact ⟨r', e1, by rw [e2, h3], e3, e4, e5⟩
 
 theorem tinv_init (kf : KF) : TInv kf {} :=
   ⟨rfl, ⟨wf_nil _ _, GOK.nil kf, trivial⟩, (by intro b hb; cases hb), List.Pairwise.nil, (by intro e he; simp [content, restOf] at he)⟩
@@ -520,10 +705,11 @@ theorem tinv_init (kf : KF) : TInv kf {} :=
 theorem runWorker_spec {kf : KF} (hkf : KFOK kf) (db : List DbNode) (cs : List (Nat × Option Nat)) (lo : Nat)
     (hdb : DbOK kf db) (hcs : ChOK lo cs) (hfirst : ∀ l, db.head? = some l → l.sep ≤ lo) :
     ∃ out rel, runWorker kf db cs = some (out, rel) ∧ flatOut out = applyAll (flat db) (chs cs) ∧
-      (∀ p, OutNode.new p ∈ out → NewGood kf p) := by
+      (∀ p, OutNode.new p ∈ out → NewGood kf p) ∧ out.Pairwise Before ∧ (∀ l, OutNode.old l ∈ out → OldOK kf l) := by
   cases cs with
-  | nil => exact ⟨db.map .old, [], rfl, by simp [flatOut_old, chs, applyAll], by
-      intro p hp; obtain ⟨q, _, e⟩ := List.mem_map.1 hp; cases e⟩
+  | nil => exact ⟨db.map .old, [], rfl, by simp [flatOut_old, chs, applyAll], (by
+      intro p hp; obtain ⟨q, _, e⟩ := List.mem_map.1 hp; cases e), pairwise_old (DbOK.pairwise hdb), (by
+      intro l hl; obtain ⟨q, hq, e⟩ := List.mem_map.1 hl; cases e; exact DbOK.oldOK hdb l hq)⟩
   | cons c cs' =>
     obtain ⟨k, pn⟩ := c
     have hk : lo ≤ k := hcs.1
@@ -531,7 +717,7 @@ theorem runWorker_spec {kf : KF} (hkf : KFOK kf) (db : List DbNode) (cs : List (
     have hinit : ∃ r0, resetTo k ({ rest := db } : Run) = r0 ∧ RS kf r0 k ∧ r0.total = flat db := by
       cases db with
       | nil =>
-        refine ⟨_, rfl, ⟨tinv_init kf, trivial, rfl, ?_, ?_, ?_, ?_, ?_, ?_, ?_⟩, ?_⟩ <;>
+        refine ⟨_, rfl, ⟨tinv_init kf, trivial, rfl, ?_, ?_, ?_, ?_, ?_, ?_, ?_, ?_, ?_, ?_⟩, ?_⟩ <;>
           simp [resetTo, skipTo, Run.total, content, restOf, Sorted]
       | cons l0 rest0 =>
         have hl0 : l0.sep ≤ k := by have := hfirst l0 rfl; omega
@@ -547,7 +733,26 @@ theorem runWorker_spec {kf : KF} (hkf : KFOK kf) (db : List DbNode) (cs : List (
             have e1 : l0 :: rest0 = skipped ++ l :: rest' := f1
             rw [f8, e1]
             simp [flatOut_old]
-          refine ⟨f7, f6.tail, rfl, ?_, ?_, ?_, ?_, ?_, ?_, ?_⟩
+          have hskl : ∀ e ∈ flat skipped, e.key < l.sep := f5
+          refine ⟨f7, f6.tail, rfl, ?_, ?_, ?_, ?_, ?_, ?_, ?_, ?_, ?_, ?_⟩
+          rotate_right 3
+          · intro c' hc' e he
+            simp only [resetBase] at hc'
+            simp only [List.nil_append, flatOut_old] at he
+            have := (hnodeIn.2.2 c' hc').1
+            have := hskl e he
+            omega
+          · simp only [List.nil_append]
+            have e1 : l0 :: rest0 = skipped ++ l :: rest' := f1
+            have := DbOK.pairwise hdb
+            rw [e1] at this
+            exact pairwise_old (List.pairwise_append.1 this).1
+          · intro n hn
+            simp only [List.nil_append] at hn
+            obtain ⟨q, hq, e⟩ := List.mem_map.1 hn
+            cases e
+            have e1 : l0 :: rest0 = skipped ++ l :: rest' := f1
+            exact DbOK.oldOK hdb n (by rw [e1]; exact List.mem_append_left _ hq)
           · show Sorted (flatOut (([] : List OutNode) ++ skipped.map .old) ++ (content _ ++ flat rest'))
             rw [htot]; exact hdb.sorted
           · show ∀ e ∈ flatOut (([] : List OutNode) ++ skipped.map .old) ++ (content _ ++ flat rest'), e.key < 2 ^ 256
@@ -578,8 +783,8 @@ theorem runWorker_spec {kf : KF} (hkf : KFOK kf) (db : List DbNode) (cs : List (
           simp [flatOut_old]
     obtain ⟨r0, hr0, hrs0, htot0⟩ := hinit
     obtain ⟨r1, lo1, g1, g2, g3⟩ := runChanges_spec hkf ((k, pn) :: cs') r0 k hrs0 ⟨Nat.le_refl _, hcs.2⟩
-    obtain ⟨r2, h1, h2, h3⟩ := finishLoop_spec hkf (r1.rest.length + 1) r1 lo1 g2 (by omega)
-    refine ⟨r2.out ++ r2.rest.map .old, r2.released, ?_, ?_, ?_⟩
+    obtain ⟨r2, h1, h2, h3, h4, h5⟩ := finishLoop_spec hkf (r1.rest.length + 1) r1 lo1 g2 (by omega)
+    refine ⟨r2.out ++ r2.rest.map .old, r2.released, ?_, ?_, ?_, h4, h5⟩
     · simp only [runWorker, hr0, g1, h1]
     · rw [flatOut_append, flatOut_old, h2, g3, htot0]
     · intro p hp
@@ -587,5 +792,81 @@ theorem runWorker_spec {kf : KF} (hkf : KFOK kf) (db : List DbNode) (cs : List (
       · exact h3 p h
       · obtain ⟨q, _, e⟩ := List.mem_map.1 h
         cases e
+
+/-! ## the new level is a well-formed level again -/
+
+/-- the node of the new level an `OutNode` stands for (`f`: the page number the allocator gives a produced node) -/
+def toDb (f : Produced → Nat) : OutNode → DbNode
+  | .old l => l
+  | .new p => ⟨p.sep, f p, p.node⟩
+
+theorem dbOK_of_chain {kf : KF} : ∀ (l : List DbNode), (∀ n ∈ l, OldOK kf n) →
+    l.Pairwise (fun n n' => ∀ it ∈ n.node.items, it.key < n'.sep) → DbOK kf l
+  | [], _, _ => trivial
+  | [n], h, _ => ⟨(h n (by simp)).1, (h n (by simp)).2, by intro c hc; cases hc⟩
+  | n :: n2 :: r, h, hp => by
+    have hn := h n (by simp)
+    have hp' := List.pairwise_cons.1 hp
+    refine ⟨⟨hn.1, hn.2, ?_⟩, dbOK_of_chain (n2 :: r) (fun x hx => h x (by simp [hx])) hp'.2⟩
+    intro c hc
+    cases hc
+    have hlt := hp'.1 n2 (by simp)
+    refine ⟨?_, hlt⟩
+    obtain ⟨f, rr, hfr⟩ := List.exists_cons_of_ne_nil hn.1.ne
+    have h1 := hn.2 f (by rw [hfr]; simp)
+    have h2 := hlt f (by rw [hfr]; simp)
+    omega
+
+/-- with the repair of F20 the level the stage produces satisfies `DbOK` again -/
+theorem level_closed {kf : KF} (hkf : KFOK kf) (hc : kf.canon = true) (db : List DbNode) (cs : List (Nat × Option Nat))
+    (lo : Nat) (hdb : DbOK kf db) (hcs : ChOK lo cs) (hfirst : ∀ l, db.head? = some l → l.sep ≤ lo)
+    (f : Produced → Nat) :
+    ∃ out rel, runWorker kf db cs = some (out, rel) ∧ DbOK kf (out.map (toDb f)) ∧
+      flat (out.map (toDb f)) = applyAll (flat db) (chs cs) := by
+  obtain ⟨out, rel, e, h1, h2, h3, h4⟩ := runWorker_spec hkf db cs lo hdb hcs hfirst
+  refine ⟨out, rel, e, ?_, ?_⟩
+  · apply dbOK_of_chain
+    · intro n hn
+      obtain ⟨o, ho, rfl⟩ := List.mem_map.1 hn
+      cases o with
+      | old l => exact h4 l ho
+      | new p =>
+        have g := h2 p ho
+        refine ⟨g.nodeOK hc, ?_⟩
+        intro it hit
+        show p.sep ≤ it.key
+        obtain ⟨f0, rr, hfr⟩ := List.exists_cons_of_ne_nil g.ne
+        have hsep : f0.key = p.sep := by
+          have := g.sep; rw [hfr] at this; simpa using this
+        have hit' : it ∈ f0 :: rr := by rw [← hfr]; exact hit
+        rcases List.mem_cons.1 hit' with h | h
+        · rw [h]; omega
+        · have hs := g.sorted
+          simp only [Node.keys, hfr, List.map_cons] at hs
+          have := (List.pairwise_cons.1 hs).1 it.key (List.mem_map.2 ⟨it, h, rfl⟩)
+          omega
+    · rw [List.pairwise_map]
+      refine h3.imp ?_
+      intro a b hab it hit
+      have : (toDb f b).sep = b.sep := by cases b <;> rfl
+      rw [this]
+      have hit' : it.ent ∈ ents a.items := by
+        cases a <;> exact List.mem_map.2 ⟨it, hit, rfl⟩
+      exact hab it.ent hit'
+  · rw [← h1]
+    unfold flat flatOut
+    rw [List.flatMap_map]
+    congr 1
+    funext o
+    cases o <;> rfl
+
+/-- a history of stages: each round's change list is ascending and starts at or behind the first separator of the level
+it meets (the allocator's page numbers `f` are arbitrary) -/
+inductive Rounds (kf : KF) (f : Produced → Nat) : List DbNode → List (List (Nat × Option Nat)) → List DbNode → Prop
+  | nil (db : List DbNode) : Rounds kf f db [] db
+  | cons (db : List DbNode) (cs : List (Nat × Option Nat)) (css : List (List (Nat × Option Nat))) (lo : Nat)
+      (out : List OutNode) (rel : List Nat) (db' : List DbNode) :
+      ChOK lo cs → (∀ l, db.head? = some l → l.sep ≤ lo) → runWorker kf db cs = some (out, rel) →
+      Rounds kf f (out.map (toDb f)) css db' → Rounds kf f db (cs :: css) db'
 
 end Nomt.BranchUpd
